@@ -39,7 +39,13 @@ AddTwoWay == \E i \in 1..Len(types) : \E j \in 1..Len(types) : \E n \in RNs : \E
     /\ LET r == [ft |-> types[i].name, fn |-> n, to1 |-> c, tt |-> types[j].name, tn |-> m, fo1 |-> ~c]
            t1 == [types EXCEPT ![i].rels = Append(@, r)]
        IN types' = [t1 EXCEPT ![j].rels = Append(@, [Invert(r) EXCEPT !.to1 = d])]
-Next == NRels < MaxRels /\ (AddOneWay \/ AddTwoWay)
+\* a relationship that is its own inverse: same type, same name and same cardinality on both ends
+\* (one entry in the type, one pair made of one relationship)
+AddSelfInverse == \E i \in 1..Len(types) : \E n \in RNs : \E c \in BOOLEAN :
+    /\ n \notin NamesOf(i)
+    /\ types' = [types EXCEPT ![i].rels = Append(@, [ft |-> types[i].name, fn |-> n, to1 |-> c,
+                                                   tt |-> types[i].name, tn |-> n, fo1 |-> c])]
+Next == NRels < MaxRels /\ (AddOneWay \/ AddTwoWay \/ AddSelfInverse)
 Spec == Init /\ [][Next]_types
 
 \* model-level: with the intended Normalize, the listing built by keying on
